@@ -162,6 +162,8 @@ pub struct SpanInfo {
     pub exit: Exit,
     pub form: Form,
     pub is_root: bool,
+    /// a root opened directly under a half header: its parent id is not judged
+    pub under_half: bool,
     pub in_unsampled: bool,
     pub cancelled: bool,
     pub expect_name: Option<String>,
@@ -184,6 +186,7 @@ pub struct Obs {
     pub expect_span: Option<u32>,
     pub expect_incoming: Option<Inc>,
     pub expect_unsampled: bool,
+    pub under_half: bool,
     pub got: (Option<String>, Option<String>, Option<String>),
     pub tp: (Option<String>, Option<String>, bool),
 }
@@ -198,6 +201,7 @@ pub struct Log {
     pub spans: Vec<SpanInfo>,
     pub obs: Vec<Obs>,
     pub events: Vec<(u32, u32, Option<u32>, Option<Inc>, bool)>,
+    pub events_under_half: BTreeSet<u32>,
     pub spawned: Vec<(Task, String, u32)>,
     pub next_strand: u32,
     pub clock_pos: usize,
@@ -391,6 +395,9 @@ pub struct Strand {
     pub incoming_at: Vec<usize>,
     /// inside an unsampled trace (traceparent runtime)
     pub unsampled: u32,
+    /// inside a pushed half header (one id all zero): it is no parent and starts no trace, but whatever ids it does
+    /// carry are the inner context's to show; ambient ids are not judged directly under it
+    pub half: u32,
 }
 
 impl Strand {
@@ -446,12 +453,14 @@ fn flags_sampled(header: &str) -> bool {
 
 fn observe(w: &World, st: &Strand, whence: &'static str) {
     let (es, ei) = st.innermost();
+    let under_half = st.half > 0 && es.is_none() && ei.is_none();
     let o = Obs {
         strand: st.id,
         whence,
         expect_span: es,
         expect_incoming: ei,
         expect_unsampled: st.unsampled > 0,
+        under_half,
         got: ids_now(w),
         tp: tp_now(),
     };
@@ -468,6 +477,9 @@ fn emit_event(w: &World, st: &Strand, eid: u32) {
     {
         let mut l = lg(&w.log);
         l.trace.push(format!("{} emits event {eid}", st.name));
+        if st.half > 0 && es.is_none() && ei.is_none() {
+            l.events_under_half.insert(eid);
+        }
         l.events.push((eid, st.id, es, ei, st.unsampled > 0));
     }
     emit::emit!(rt: &w.rt, "event {eid}", eid);
@@ -487,6 +499,7 @@ fn new_span_info(w: &World, st: &Strand, sid: u32, form: Form, exit: Exit, enabl
         exit,
         form,
         is_root,
+        under_half: is_root && st.half > 0,
         in_unsampled: st.unsampled > 0 || (TP && is_root && !sampled && !w.no_sampler),
         cancelled: false,
         expect_name: None,
@@ -1076,6 +1089,13 @@ fn effective_incoming(st: &Strand, inc: &Incoming) -> Incoming {
             repr: *repr,
             part: 0,
         },
+        // half a header is only pushed where no trace is active (what it does to an enclosing trace's ambient ids is
+        // the inner context's business, not modelled here): elsewhere its zero half is filled in
+        Incoming::Header { text } if st.in_trace() && (text.contains("-0000000000000000-") || text.starts_with("00-00000000000000000000000000000000-")) => Incoming::Header {
+            text: text
+                .replace("-0000000000000000-", "-def0000000000fff-")
+                .replace("00-00000000000000000000000000000000-", "00-abc00000000000000000000000000fff-"),
+        },
         other => other.clone(),
     }
 }
@@ -1159,7 +1179,11 @@ fn run_incoming_sync(w: &Arc<World>, st: &mut Strand, inc: &Incoming, body: &Arc
             });
             pop_incoming_model(st, inc);
         }
-        Incoming::Header { text } => match Traceparent::try_from_str(text) {
+        Incoming::Header { .. } => {
+            let eff = effective_incoming(st, inc);
+            let inc = &eff;
+            let Incoming::Header { text } = inc else { unreachable!() };
+            match Traceparent::try_from_str(text) {
             Ok(tp) => {
                 let mismatch = st.in_trace();
                 let frame = tp.push();
@@ -1172,7 +1196,10 @@ fn run_incoming_sync(w: &Arc<World>, st: &mut Strand, inc: &Incoming, body: &Arc
                     st.incoming_at.clear();
                     st.unsampled = 0;
                 }
-                push_incoming_model(st, inc);
+                if !push_incoming_model(st, inc) {
+                    st.half += 1;
+                    w.probe("half_header_pushed");
+                }
                 frame.call(|| {
                     observe(w, st, "inside pushed header");
                     run_sync(w, st, body)
@@ -1183,7 +1210,8 @@ fn run_incoming_sync(w: &Arc<World>, st: &mut Strand, inc: &Incoming, body: &Arc
                 w.probe("invalid_header_ignored");
                 run_sync(w, st, body);
             }
-        },
+            }
+        }
     }
     observe(w, st, "after incoming frame");
 }
@@ -1314,7 +1342,11 @@ fn run_async<'a>(w: &'a Arc<World>, st: &'a mut Strand, nodes: &'a Arc<Vec<S>>) 
                     pop_incoming_model(st, inc);
                     observe(w, st, "after incoming frame future");
                 }
-                S::Incoming(inc @ Incoming::Header { text }, body) => match Traceparent::try_from_str(text) {
+                S::Incoming(inc0 @ Incoming::Header { .. }, body) => {
+                    let eff = effective_incoming(st, inc0);
+                    let inc = &eff;
+                    let Incoming::Header { text } = inc else { unreachable!() };
+                    match Traceparent::try_from_str(text) {
                     Ok(tp) => {
                         w.probe("incoming_ids_pushed");
                         let mismatch = st.in_trace();
@@ -1327,7 +1359,10 @@ fn run_async<'a>(w: &'a Arc<World>, st: &'a mut Strand, nodes: &'a Arc<Vec<S>>) 
                             st.incoming_at.clear();
                             st.unsampled = 0;
                         }
-                        push_incoming_model(st, inc);
+                        if !push_incoming_model(st, inc) {
+                            st.half += 1;
+                            w.probe("half_header_pushed");
+                        }
                         frame.in_future(run_async(w, st, body)).await;
                         *st = saved;
                         observe(w, st, "after header frame future");
@@ -1336,7 +1371,8 @@ fn run_async<'a>(w: &'a Arc<World>, st: &'a mut Strand, nodes: &'a Arc<Vec<S>>) 
                         w.probe("invalid_header_ignored");
                         run_async(w, st, body).await;
                     }
-                },
+                }
+                }
                 other => {
                     let one = Arc::new(vec![other.clone()]);
                     run_sync(w, st, &one);
@@ -1476,7 +1512,20 @@ pub fn gen_nodes(ch: &mut Choices, cfg: &GenCfg, depth: u32, budget: &mut u32, n
                 let inc = if TP {
                     let t = 0xabc0_0000_0000_0000_0000_0000_0000_0000u128 + *next as u128;
                     let s = 0xdef0_0000_0000_0000u64 + *next as u64;
-                    let text = match ch.weighted(&[5, 3, 1, 1, 2, 1]) {
+                    // (weight 0: half headers are not generated - see DESIGN 11.5, seed C18r8: what a half header shows
+                    // as current / ambient while it is active is not modelled yet, and the first attempt raised alarms on
+                    // the unchanged tree)
+                    let text = match ch.weighted(&[5, 3, 1, 1, 2, 1, 0]) {
+                        // half a header: a trace id with an all-zero parent id, or the other way round. It parses, but
+                        // it names no parent: what is opened under it is a new trace, sampler and all
+                        6 => {
+                            let ff = *ch.pick(&["00", "01"]);
+                            if ch.chance(1, 2) {
+                                format!("00-{t:032x}-{:016x}-{ff}", 0)
+                            } else {
+                                format!("00-{:032x}-{s:016x}-{ff}", 0)
+                            }
+                        }
                         0 => format!("00-{t:032x}-{s:016x}-01"),
                         1 => format!("00-{t:032x}-{s:016x}-00"),
                         2 => format!("00-{t:032x}-{s:016x}-zz"),
@@ -1909,7 +1958,7 @@ fn posthoc(w: &World, focus: &'static str) {
             (None, Some((t, sp))) => (Some(sp.clone()), t.as_ref().map(|t| Some(t.clone()))),
             (None, None) => (Some(None), None),
         };
-        if let Some(wp) = want_parent {
+        if let (Some(wp), false) = (want_parent, s.under_half) {
             if rec.span_parent != wp {
                 v.push((
                     c04,
@@ -1938,6 +1987,9 @@ fn posthoc(w: &World, focus: &'static str) {
     }
     // events carry the ids of the innermost enclosing enabled span
     for (eid, strand, es, ei, unsampled) in &l.events {
+        if l.events_under_half.contains(eid) {
+            continue;
+        }
         let recs: Vec<&Rec> = l.recs.iter().filter(|r| !r.is_span && r.eid == Some(*eid)).collect();
         if TP && w.in_sampled_filter && *unsampled {
             if !recs.is_empty() {
@@ -1986,6 +2038,9 @@ fn posthoc(w: &World, focus: &'static str) {
             (None, Some((t, s))) => Some((t.clone(), s.clone())),
             (None, None) => Some((None, None)),
         };
+        if o.under_half {
+            continue;
+        }
         if TP && o.expect_unsampled {
             if o.tp.2 {
                 v.push(("C18", "traceparent_reports_sampled", format!("strand {} {}: inside an unsampled trace the current traceparent {:?} reports sampled", o.strand, o.whence, o.tp)));
